@@ -174,6 +174,11 @@ func (c *c41) measureEmptyWeight() {
 // that moment (emptyWeight says whether the first loop is there). For a proposer p, the adversary (map order) visits N-C members holding a p
 // record and decides which other endorsers come before them.
 func (c *c41) commitReach(r *part, blk uint32, v *poolView) []decision {
+	return c.commitReachW(r, blk, v, emptyWeight)
+}
+
+// commitReachW: commitReach for a given weight of a non-endorser's empty vote.
+func (c *c41) commitReachW(r *part, blk uint32, v *poolView, weight uint32) []decision {
 	if v.phase1Decides(c.N) {
 		return nil
 	}
@@ -192,7 +197,7 @@ func (c *c41) commitReach(r *part, blk uint32, v *poolView) []decision {
 		for _, e := range v.endorser {
 			pre := uint32(0)
 			if !r.vn.IsEndorser(blk, e) {
-				pre = emptyWeight - 1
+				pre = weight - 1
 			}
 			var full, partial uint32
 			hasP, afterP := false, false
@@ -260,19 +265,49 @@ func (c *c41) endorseAnswer(r *part, blk uint32, v *poolView) (d decision, usabl
 		c.crossCheck("endorse", cands, func() (uint32, bool, bool) { return r.vn.EndorseDone(blk, c.C) })
 		return decision{}, false
 	}
-	p, fe, done := r.vn.EndorseDone(blk, c.C)
-	d = decision{p, fe, done}
-	if !done {
-		d = decision{}
-	}
-	for i := 0; i < confirmK && done; i++ {
-		p2, fe2, done2 := r.vn.EndorseDone(blk, c.C)
-		if (decision{p2, fe2, done2}) != d {
-			c.run.Probe("unexpected_instability")
-			return decision{}, false
+	return c.sampled("endorse-done", r, blk, func() (uint32, bool, bool) { return r.vn.EndorseDone(blk, c.C) })
+}
+
+// sampled asks the pool several times in a state the analysis found unambiguous. The answers
+// agree on a tree whose decision rules are the ones analysed; if they do not (a changed rule),
+// every answer seen is checked against the model and none is used.
+func (c *c41) sampled(what string, r *part, blk uint32, f func() (uint32, bool, bool)) (decision, bool) {
+	var seen []decision
+	for i := 0; i <= confirmK; i++ {
+		p, fe, done := f()
+		d := decision{p, fe, done}
+		if !done {
+			d = decision{}
+		}
+		known := false
+		for _, q := range seen {
+			known = known || q == d
+		}
+		if !known {
+			seen = append(seen, d)
+		}
+		if i == 0 && !done {
+			break // "not done" does not depend on the iteration order
 		}
 	}
-	return d, true
+	if len(seen) == 1 {
+		return seen[0], true
+	}
+	c.run.Probe("unexpected_instability")
+	mod := c.model(r.pos, blk)
+	for _, d := range seen {
+		if !d.done {
+			continue
+		}
+		ok := mod.endorsedOK(d.p, d.fe, c.C, lvStrict)
+		if what == "commit-done" {
+			ok = mod.committedOK(d.p, d.fe, c.C, c.N, lvStrict)
+		}
+		if !ok {
+			c.quorumFail(what, r, blk, d, mod)
+		}
+	}
+	return decision{}, false
 }
 
 func (c *c41) commitAnswer(r *part, blk uint32, v *poolView) (d decision, usable bool) {
@@ -281,19 +316,7 @@ func (c *c41) commitAnswer(r *part, blk uint32, v *poolView) (d decision, usable
 		c.crossCheck("commit", reach, func() (uint32, bool, bool) { return r.vn.CommitDone(blk, c.C, c.N) })
 		return decision{}, false
 	}
-	p, fe, done := r.vn.CommitDone(blk, c.C, c.N)
-	d = decision{p, fe, done}
-	if !done {
-		d = decision{}
-	}
-	for i := 0; i < confirmK && done; i++ {
-		p2, fe2, done2 := r.vn.CommitDone(blk, c.C, c.N)
-		if (decision{p2, fe2, done2}) != d {
-			c.run.Probe("unexpected_instability")
-			return decision{}, false
-		}
-	}
-	return d, true
+	return c.sampled("commit-done", r, blk, func() (uint32, bool, bool) { return r.vn.CommitDone(blk, c.C, c.N) })
 }
 
 // crossCheck samples the pool's answer in an ambiguous state: every sampled answer must be
@@ -450,6 +473,17 @@ func (c *c41) quorumFail(what string, r *part, blk uint32, d decision, mod *roun
 		return
 	}
 	key := quorumKey(what, d.fe, classify(func(lv int) bool { return mod.committedOK(d.p, d.fe, C, N, lv) }))
+	if key == "commit-done-empty-below-quorum" {
+		// that key names one mechanism: a non-endorser's empty vote counted twice (possible only
+		// if the pool does so, and only where counting once would not give this answer)
+		once := false
+		for _, q := range c.commitReachW(r, blk, c.view(r, blk), 1) {
+			once = once || q == d
+		}
+		if emptyWeight != 2 || once {
+			key = "commit-done-empty-miscount"
+		}
+	}
 	c.fail(key, "node %d block %d: the pool treats proposer %d empty=%v as committed (C=%d, N=%d) but distinct valid signers in commit messages are %v (text needs %d) and distinct valid endorsers are %v (text needs more than %d); trusting the indices written in messages: commit signers %v, endorsers %v; empty votes for any proposer %v",
 		r.idx, blk, d.p, d.fe, C, N, setStr(mod.supporters(d.p, d.fe, lvStrict, true)), N-(N-1)/3-1, setStr(mod.supporters(d.p, d.fe, lvStrict, false)), N-1-C,
 		setStr(mod.supporters(d.p, d.fe, lvClaimed, true)), setStr(mod.supporters(d.p, d.fe, lvClaimed, false)), setStr(mod.anyEmpty(false)))
